@@ -389,4 +389,149 @@ theorem rep_iff (r : RE) (lo : Nat) (hi : Option Nat) (hle : ∀ m, hi = some m 
       exact ⟨w1, w2, rfl, (repN_iff _ _ _ _ _).2 h1, (repOpt_iff _ _ _ _ _).2 ⟨j, by omega, h2⟩⟩
 
 
+/-! ### prefix matches (leftmost start) -/
+
+theorem prefixMatch_iff (r : RE) (p : Option Ch) (w : List Ch) (n : Option Ch) :
+    prefixMatch r p w n = true ↔ ∃ u v, w = u ++ v ∧ Matches r p u (ctxR v n) := by
+  induction w generalizing r p with
+  | nil =>
+    simp only [prefixMatch, nullable_iff]
+    constructor
+    · intro h; exact ⟨[], [], rfl, h⟩
+    · rintro ⟨u, v, h, hm⟩
+      have : u = [] ∧ v = [] := by simpa using h.symm
+      obtain ⟨rfl, rfl⟩ := this
+      exact hm
+  | cons c w ih =>
+    simp only [prefixMatch, Bool.or_eq_true, nullable_iff, ih, deriv_iff]
+    constructor
+    · rintro (h | ⟨u, v, rfl, hm⟩)
+      · exact ⟨[], c :: w, rfl, h⟩
+      · exact ⟨c :: u, v, rfl, hm⟩
+    · rintro ⟨u, v, h, hm⟩
+      cases u with
+      | nil =>
+        simp at h; subst h
+        exact .inl hm
+      | cons d u =>
+        simp at h
+        obtain ⟨rfl, rfl⟩ := h
+        exact .inr ⟨u, v, rfl, hm⟩
+
+
+/-! ### back-reference resolution -/
+
+theorem digitsVal_append_single (l : List Nat) (d : Nat) : digitsVal (l ++ [d]) = digitsVal l * 10 + d := by
+  simp [digitsVal, List.foldl_append]
+
+theorem take_succ_eq (l : List Nat) (k : Nat) (h : k < l.length) : l.take (k + 1) = l.take k ++ [l[k]] := by
+  rw [List.take_add_one]
+  simp [h]
+
+theorem digitsVal_take_mono (l : List Nat) (j : Nat) : digitsVal (l.take j) ≤ digitsVal (l.take (j + 1)) := by
+  by_cases h : j < l.length
+  · rw [take_succ_eq l j h, digitsVal_append_single]; omega
+  · have h1 : l.take j = l := List.take_of_length_le (by omega)
+    have h2 : l.take (j + 1) = l := List.take_of_length_le (by omega)
+    rw [h1, h2]; exact Nat.le_refl _
+
+theorem digitsVal_take_mono' (l : List Nat) {i j : Nat} (h : i ≤ j) : digitsVal (l.take i) ≤ digitsVal (l.take j) := by
+  induction j with
+  | zero => have : i = 0 := by omega
+            subst this; exact Nat.le_refl _
+  | succ j ih =>
+    by_cases hij : i ≤ j
+    · exact Nat.le_trans (ih hij) (digitsVal_take_mono l j)
+    · have : i = j + 1 := by omega
+      subst this; exact Nat.le_refl _
+
+/-- what the loop computes: every prefix up to the result is within the group count, the next one is not -/
+theorem brLoop_spec (g : Nat) (digits : List Nat) :
+    ∀ (rest : List Nat) (k : Nat), k ≤ digits.length → digits.drop k = rest →
+      let k' := brLoop g (digitsVal (digits.take k)) k rest
+      k ≤ k' ∧ k' ≤ digits.length ∧
+      (∀ j, k < j → j ≤ k' → digitsVal (digits.take j) ≤ g) ∧
+      (k' < digits.length → g < digitsVal (digits.take (k' + 1))) := by
+  intro rest
+  induction rest with
+  | nil =>
+    intro k hk hd
+    have : k = digits.length := by
+      have := congrArg List.length hd
+      simp at this; omega
+    simp only [brLoop]
+    exact ⟨Nat.le_refl _, hk, fun j h1 h2 => by omega, fun h => by omega⟩
+  | cons d r ih =>
+    intro k hk hd
+    have hlt : k < digits.length := by
+      have := congrArg List.length hd
+      simp at this; omega
+    have hdk : digits[k] = d := by
+      have := List.drop_eq_getElem_cons hlt
+      rw [this] at hd
+      exact (List.cons.inj hd).1
+    have hdr : digits.drop (k + 1) = r := by
+      have := List.drop_eq_getElem_cons hlt
+      rw [this] at hd
+      exact (List.cons.inj hd).2
+    have hval : digitsVal (digits.take (k + 1)) = digitsVal (digits.take k) * 10 + d := by
+      rw [take_succ_eq digits k hlt, digitsVal_append_single, hdk]
+    simp only [brLoop]
+    split
+    · rename_i hg
+      refine ⟨Nat.le_refl _, hk, fun j h1 h2 => by omega, fun _ => ?_⟩
+      rw [hval]; exact hg
+    · rename_i hg
+      have ih' := ih (k + 1) (by omega) hdr
+      rw [hval] at ih'
+      obtain ⟨h1, h2, h3, h4⟩ := ih'
+      refine ⟨by omega, h2, ?_, h4⟩
+      intro j hj1 hj2
+      by_cases hj : j = k + 1
+      · subst hj; rw [hval]; omega
+      · exact h3 j (by omega) hj2
+
+theorem bestPrefix_eq (g : Nat) (digits : List Nat) (k' n : Nat) (hk1 : 1 ≤ k')
+    (hin : ∀ j, 1 < j → j ≤ k' → digitsVal (digits.take j) ≤ g)
+    (hout : ∀ j, k' < j → j ≤ n → g < digitsVal (digits.take j)) :
+    ∀ j, k' ≤ j → j ≤ n → bestPrefix g digits j = k' := by
+  intro j
+  induction j with
+  | zero => intro h; omega
+  | succ j ih =>
+    intro hj hjn
+    cases j with
+    | zero =>
+      have : k' = 1 := by omega
+      subst this; rfl
+    | succ j =>
+      simp only [bestPrefix]
+      by_cases hk : k' = j + 2
+      · subst hk
+        have := hin (j + 2) (by omega) (Nat.le_refl _)
+        simp [this]
+      · have := hout (j + 2) (by omega) hjn
+        have hn : ¬ digitsVal (digits.take (j + 2)) ≤ g := by omega
+        simp only [hn, if_false]
+        exact ih (by omega) (by omega)
+
+/-- the implementation's resolution loop computes the F&O resolution, for every digit string and
+every number of groups opened so far -/
+theorem resolveM_eq_resolveS (digits : List Nat) (g : Nat) (hne : digits ≠ []) :
+    resolveM digits g = resolveS digits g := by
+  cases digits with
+  | nil => exact absurd rfl hne
+  | cons d1 ds =>
+    have hs := brLoop_spec g (d1 :: ds) ds 1 (by simp) (by simp)
+    have hv : digitsVal ((d1 :: ds).take 1) = d1 := by simp [digitsVal]
+    rw [hv] at hs
+    obtain ⟨h1, h2, h3, h4⟩ := hs
+    have hout : ∀ j, brLoop g d1 1 ds < j → j ≤ (d1 :: ds).length → g < digitsVal ((d1 :: ds).take j) := by
+      intro j hj hjl
+      exact Nat.lt_of_lt_of_le (h4 (by omega)) (digitsVal_take_mono' _ (by omega))
+    have hb := bestPrefix_eq g (d1 :: ds) (brLoop g d1 1 ds) (d1 :: ds).length h1
+      (fun j hj1 hj2 => h3 j hj1 hj2) hout (d1 :: ds).length h2 (Nat.le_refl _)
+    simp only [resolveM, resolveS, hb, digitsVal]
+
+
 end EPV.Regex
